@@ -305,11 +305,26 @@ namespace
     struct BPairU { static constexpr auto name = "c12_b_pair_u"; static Port<TS<Int>> compose(Wiring &w, Port<TS<Int>> a, Port<TS<Int>> b) { return wire<NPairU>(w, a, b); } };
     struct BPairP { static constexpr auto name = "c12_b_pair_p"; static Port<TS<Int>> compose(Wiring &w, Port<TS<Int>> a, Port<TS<Int>> b) { return wire<NPairP>(w, a, b); } };
 
-    // desc: pair|<kscript>|<a script>|<b script>     key 1 -> BPairU, key 2 -> BPairP
+    using PairL2 = TSL<TS<Int>, 2>;
+    struct NListSum
+    {
+        static constexpr auto name = "c12_list_sum";
+        static void eval(In<"l", PairL2, InputActivity::Active, InputValidity::Unchecked> l, Out<TS<Int>> out)
+        {
+            Int s2 = 0;
+            for (std::size_t i = 0; i < 2; ++i) if (l[i].valid()) s2 += (static_cast<Int>(i) + 2) * l[i].value();
+            out.set(Int{s2 + 900000});
+        }
+    };
+    struct BListSum { static constexpr auto name = "c12_b_list_sum"; static Port<TS<Int>> compose(Wiring &w, Port<PairL2> l) { return wire<NListSum>(w, l); } };
+    struct BListFirst { static constexpr auto name = "c12_b_list_first"; static Port<TS<Int>> compose(Wiring &w, Port<PairL2> l) { return tsl_element(l, 0); } };   // returns a leaf of its argument directly
+
+    // desc: pair|<kscript>|<a script>|<b script>     key 1 -> BPairU, key 2 -> BPairP ;   lst|... the two inputs packed with to_tsl: key 1 -> BListSum, key 2 -> BListFirst
     Outcome run_pair_desc(const std::string &desc)
     {
         Outcome out;
         auto parts = split(desc, '|');
+        const bool packed = parts.at(0) == "lst";
         Run run;
         run.kscript = split(parts.at(1), ';');
         run.iscript = split(parts.at(2), ';');
@@ -325,9 +340,10 @@ namespace
             auto a = wire<TsWriter>(w, Int{1});
             auto b = wire<TsWriter2>(w);
             stdlib::SwitchCases cases;
-            cases.cases.push_back({Value{Int{1}}, fn<BPairU>()});
-            cases.cases.push_back({Value{Int{2}}, fn<BPairP>()});
-            Port<TS<Int>> o = wire<stdlib::switch_>(w, key, cases, a, b).template as<TS<Int>>();
+            cases.cases.push_back({Value{Int{1}}, packed ? fn<BListSum>() : fn<BPairU>()});
+            cases.cases.push_back({Value{Int{2}}, packed ? fn<BListFirst>() : fn<BPairP>()});
+            Port<TS<Int>> o = packed ? wire<stdlib::switch_>(w, key, cases, stdlib::to_tsl<PairL2>(w, a, b).template as<PairL2>()).template as<TS<Int>>()
+                                     : wire<stdlib::switch_>(w, key, cases, a, b).template as<TS<Int>>();
             wire<EveryProbe<TS<Int>>>(w, o);
             GraphBuilder gb = std::move(w).finish();
             GraphExecutorBuilder eb;
@@ -368,7 +384,9 @@ namespace
                 Wiring w;
                 auto a = wire<TsWriter>(w, Int{1});
                 auto b = wire<TsWriter2>(w);
-                Port<TS<Int>> o = l.key == 1 ? wire<NPairU>(w, a, b) : wire<NPairP>(w, a, b);
+                Port<TS<Int>> o;
+                if (packed) o = l.key == 1 ? wire<NListSum>(w, stdlib::to_tsl<PairL2>(w, a, b).template as<PairL2>()) : Port<TS<Int>>{a};
+                else o = l.key == 1 ? wire<NPairU>(w, a, b) : wire<NPairP>(w, a, b);
                 wire<EveryProbe<TS<Int>>>(w, o);
                 GraphBuilder gb = std::move(w).finish();
                 GraphExecutorBuilder eb;
@@ -383,7 +401,7 @@ namespace
         std::map<long, std::string> got;
         std::ostringstream sig;
         for (auto &sm : run.samples) { if (sm.modified && sm.valid) { got[sm.t] = sm.value; ++out.ticks; } sig << (sm.valid ? sm.value : "-") << ","; }
-        out.sig = "pair#" + sig.str();
+        out.sig = parts.at(0) + "#" + sig.str();
         out.nontrivial = lives.size() >= 2;
         if (got != want)
         {
@@ -397,7 +415,7 @@ namespace
     Outcome run_desc(const std::string &desc)
     {
         if (desc.rfind("set", 0) == 0) return run_set_desc(desc);
-        if (desc.rfind("pair|", 0) == 0) return run_pair_desc(desc);
+        if (desc.rfind("pair|", 0) == 0 || desc.rfind("lst|", 0) == 0) return run_pair_desc(desc);
         Outcome out;
         auto parts = split(desc, '|');
         const std::string cfg = parts.at(0);
@@ -569,21 +587,21 @@ void verif_enumerate(verif::Ctx &ctx)
         {
             // two-input branches: key x first input x second input histories
             const auto ks3 = all_scripts({"", "v1", "v2"}), as3 = all_scripts({"", "v7"}), bs3 = all_scripts({"", "v3", "v4"});
-            for (auto &ks : ks3) for (auto &as : as3) for (auto &bs : bs3)
+            for (const char *prog : {"pair", "lst"}) for (auto &ks : ks3) for (auto &as : as3) for (auto &bs : bs3)
             {
                 if (!ctx.next_is_mine()) continue;
-                const std::string desc = "pair|" + ks + "|" + as + "|" + bs;
+                const std::string desc = std::string{prog} + "|" + ks + "|" + as + "|" + bs;
                 ++ctx.evaluations; ++ctx.traces;
                 Outcome o = run_desc(desc);
                 ctx.transitions += o.ticks;
                 ctx.state(o.sig);
                 if (o.nontrivial) ctx.nontriv(desc);
-                ctx.count("cases_pair");
+                ctx.count(std::string{"cases_"} + prog);
                 if (o.violation)
                 {
                     Outcome o2 = run_desc(desc);
                     if (!o2.violation || *o2.violation != *o.violation) throw verif::HarnessError("case not reproducible: " + desc);
-                    ctx.violation(desc, *o.violation, "pair: " + o.violation->substr(0, 44));
+                    ctx.violation(desc, *o.violation, std::string{prog} + ": " + o.violation->substr(0, 44));
                 }
             }
         }
